@@ -474,6 +474,7 @@ package server
 //@   at call NewLockManagerData assert C15.op.push-elemlen: implies(arg1 == 7 && hasValue(currentLockData) && len(currentLockData.data) >= 6 && currentLockData.data[5]&0x02 != 0, putLE32(arg0, len(currentLockData.data), len(lockCommandData.Data) - voffC(lockCommandData)))
 //@   at call NewLockManagerData assert C15.op.push-elem: implies(arg1 == 7 && hasValue(currentLockData) && len(currentLockData.data) >= 6 && currentLockData.data[5]&0x02 != 0, forall(k, 0, len(lockCommandData.Data) - voffC(lockCommandData), arg0[len(currentLockData.data) + 4 + k] == lockCommandData.Data[voffC(lockCommandData) + k]))
 //@   at call NewLockManagerData assert C15.op.incr: implies(arg1 == 2, len(arg0) >= 14 && putLE64(arg0, len(arg0) - 8, incrValue) && arg0[4] == 0 && arg0[5]&0x01 != 0)
+//@   at call NewLockManagerData assert C15.op.incr-header: implies(arg1 == 2 && arr(arg0) != arr(lockCommandData.Data), frameLenOk(arg0))
 //@   at call NewLockManagerData assert C15.op.header: implies(arg1 == 3 && hasValue(currentLockData) || arg1 == 4 || arg1 == 7, frameLenOk(arg0))
 //@   ghost valueBefore[ref(self)] = curValue(self)
 //@   ghost valueAfter[ref(self)] = after(ref(self.currentData))
@@ -497,6 +498,7 @@ package server
 //@ func (*LockManager).ProcessRecoverLockData
 //@   requires implies(lock != nil && lock.data != nil && lock.data.currentData != nil && !isnil(lock.data.recoverValue), recoverTyped(lock.data.currentData.commandType, lock.data.recoverValue))
 //@   at call NewLockManagerData assert C15.recover.shift-header,C11.recover.shift-header: implies(arg1 == protocol.LOCK_DATA_COMMAND_TYPE_SHIFT && len(currentData.data) >= 8 && voffM(currentData) <= len(currentData.data) && len(currentData.data) < 0x40000000 && len(astype(recoverValue, []byte)) < 0x40000000, forall(k, 6, voffM(currentData), arg0[k] == currentData.data[k]))
+//@   at call NewLockManagerData assert C15.recover.incr-header,C11.recover.incr-header: implies(arg1 == protocol.LOCK_DATA_COMMAND_TYPE_INCR, frameLenOk(arg0))
 //@   loop#4 entry C15.recover.pop-head,C11.recover.pop-head: implies(!isnil(recoverValue), len(values) == len(astype(recoverValue, [][]byte)))
 //@   modifies LockData.*, LockManagerData.isAof, LockManager.currentData, Lock.data
 //@ func (*LockManager).ProcessAckLockData
